@@ -105,6 +105,8 @@ def run(sc, trace=None):
             if sc["scheduler"] == "overbook":
                 pm.after_exec_overbook()
             w.boundary_checks()
+        if pm is not None and not w.ended:
+            pm.finish()
     finally:
         w.close()
     return w
@@ -130,6 +132,7 @@ SHAPES["vee0"] = [[], [], [0]]
 SHAPES["vee3"] = [[], [], [], [2]]
 # two independent branches r1 -> x, r2 -> y
 SHAPES["twobranch"] = [[], [], [0], [1]]
+SHAPES["roots2"] = [[], []]
 
 
 def op_profile(name, tps, small=0.5, over=3.0, huge=1e6, over2=6.0):
@@ -141,6 +144,8 @@ def op_profile(name, tps, small=0.5, over=3.0, huge=1e6, over2=6.0):
         return [dict(cpu=d(2), scaling="const", mem=small, read=0)]
     if name == "s3":
         return [dict(cpu=d(3), scaling="const", mem=small, read=0)]
+    if name.startswith("s") and name[1:].isdigit() and int(name[1:]) > 9:     # sN: N ticks of compute
+        return [dict(cpu=d(int(name[1:])), scaling="const", mem=small, read=0)]
     if name == "s9":        # a long filler
         return [dict(cpu=d(9), scaling="const", mem=small, read=0)]
     if name == "over":      # over any first allocation of the small pools, under the doubled one
@@ -195,11 +200,14 @@ def build(algo, cfg, combo, tps, **kw):
     pools, cpus, ram, multi, oc = cfg
     kw = dict(kw)
     inj = kw.pop("inject_suspend_at", None) if "inject_suspend_at" in kw else None
+    hz = kw.pop("horizon", None)
     pipes = [pipeline(pr, ar, sh, pf, tps, **kw) for pr, ar, sh, pf in combo]
     sc = dict(name=f"{algo}-p{pools}c{cpus}r{ram}m{int(multi)}t{tps}", scheduler=algo, tps=tps, pools=pools, cpus=cpus, ram=ram,
               overcommit=oc, multi=multi, horizon=horizon_of(combo, tps) + (6 if inj is not None else 0), pipelines=pipes)
     if inj is not None:
         sc["inject_suspend_at"] = inj
+    if hz is not None:
+        sc["horizon"] = hz
     return sc
 
 
@@ -373,6 +381,55 @@ def space(kind, tier, seed=0):
                                     combo = ((cls, 0, "single", ("over",)),) + tuple((cls, 0, "single", fprof) for _ in range(nf)) + \
                                             ((cls, garr, "single", gprof),) + tuple(sorted(((cls, carr, "single", ("s1",)), (lo, iarr, "single", ("s1",))), key=lambda c: c[1]))
                                     out.append(("priority-pool", cfg, combo, 1, dict(over=max(1, int(cfg[2] / 10)) + 0.5)))
+        return out
+    if kind.startswith("longchain:"):
+        # ONE very long pipeline (a chain, and a chain with a fan at its end) next to ordinary traffic: caps on how many
+        # operators a container / a round / a queue takes; length follows the constants of the scheduler sources
+        from .. import scale as _scale
+        algo = kind[10:]
+        L, info = _scale.size(["scheduler/", "workload/runtime_status", "workload/pipeline", "utils/", "executor/"], 40 if q else 120, 6000)
+        SHAPES[f"chain{L}"] = [[]] + [[i] for i in range(L - 1)]
+        cfgs = {"naive": [(2, 2, 8, True, False), (2, 2, 8, False, False)], "priority": [(1, 10, 40, True, False), (1, 10, 40, False, False)],
+                "priority-pool": [(2, 10, 40, True, False)], "overbook": [(2, 2, 8, True, True)], "starter": [(2, 2, 8, False, False)]}[algo]
+        for cfg in cfgs:
+            over = (max(1, int(cfg[2] / 10)) + 0.5) if algo.startswith("priority") else 5.0
+            for qarr in (5, L // 2):
+                combo = tuple(sorted((("B", 0, f"chain{L}", ("s1",)), ("Q", qarr, "single", ("s1",)), ("B", qarr + 1, "chain2", ("s1", "s2"))), key=lambda c: c[1]))
+                out.append((algo, cfg, combo, 1, dict(over=over, horizon=L + qarr + 16)))
+        return out
+    if kind.startswith("scale:"):
+        # MANY pipelines through one scheduler: queues, windows, tables and caches that only matter beyond some count.
+        # The count follows the program's own constants (mc/scale.py): past every new number in the scheduler /
+        # executor / lifecycle sources, a small default otherwise.
+        from .. import scale as _scale
+        algo = kind[6:]
+        n, info = _scale.size(["scheduler/", "executor/", "workload/runtime_status", "workload/pipeline", "utils/"], 160 if q else 400, 20000)
+        cfgs = {"naive": [(1, 2, 8, False, False), (2, 2, 8, True, False)], "priority": [(1, 4, 40, True, False), (1, 4, 40, False, False)],
+                "priority-pool": [(2, 6, 60, True, False)], "overbook": [(1, 4, 8, True, True)], "starter": [(1, 2, 8, False, False)]}[algo]
+        for cfg in cfgs:
+            conc = cfg[0] * (1 if algo in ("naive", "starter") else cfg[1])
+            if algo == "priority-pool":
+                conc = cfg[1]       # one class may have to go through one pool
+            head = [("B", 0, "chain2", ("s1", "over")), ("I", 0, "single", ("s2",))]
+            if algo.startswith("priority"):
+                # ... and long fillers, so that the retry of the failed second operator has to wait at the head of its queue
+                head += [("B", 0, "single", ("s9",)) for _ in range(cfg[1] - 1)]
+                head.append(("B", 2, "single", ("s9",)))     # arrives with the failure report and takes the CPU the failure freed
+            if algo == "priority":
+                head.append(("Q", 2, "single", ("s1",)))
+            over = (max(1, int(cfg[2] / 10)) + 0.5) if algo.startswith("priority") else 5.0
+            hz = (n + 8) // conc + 20
+            if algo == "overbook":
+                # a pipeline that is abandoned early (its first root never fits) while its second root outlives most of the
+                # others (it holds one CPU meanwhile); the rest of the queue drains afterwards
+                hz = (n + 8) // max(1, conc - 1) + 60
+                head.append(("B", 0, "roots2", ("huge", f"s{max(10, (3 * n // 4) // max(1, conc - 1))}")))
+            mixes = (("B", "I"), ("B",)) if algo.startswith("priority") else (("B",),)
+            for mix in mixes:
+                a0 = 4 if algo == "overbook" else (3 if algo.startswith("priority") else 0)      # (overbook: the head pipelines have the pool to themselves for their three failures)
+                body = [(mix[i % len(mix)], a0 if i < n // 2 else a0 + 1, "single", ("s1",)) for i in range(n)]
+                combo = tuple(sorted(head + body, key=lambda c: c[1]))
+                out.append((algo, cfg, combo, 1, dict(over=over, horizon=hz)))
         return out
     if kind == "wide:overbook":
         # a wide pipeline is abandoned while one of its containers is still running; other pipelines wait for CPUs
